@@ -138,13 +138,31 @@ Proof.
       lia.
 Qed.
 
-Lemma ndigits_spec m : 0 < m -> 1 <= ndigits m /\ 10 ^ (ndigits m - 1) <= m < 10 ^ ndigits m.
+Lemma ndigits_slow_spec m : 0 < m -> 1 <= ndigits_slow m /\ 10 ^ (ndigits_slow m - 1) <= m < 10 ^ ndigits_slow m.
 Proof.
-  intros Hm. unfold ndigits. split.
+  intros Hm. unfold ndigits_slow. split.
   - apply ndig_ge1. lia.
   - apply ndig_spec; [exact Hm|].
     rewrite Nat2Z.inj_succ, Z2Nat.id by apply Z.log2_nonneg.
     apply Z.log2_spec; exact Hm.
+Qed.
+
+Lemma ndigits_spec m : 0 < m -> 1 <= ndigits m /\ 10 ^ (ndigits m - 1) <= m < 10 ^ ndigits m.
+Proof.
+  intros Hm. unfold ndigits.
+  assert (Hg : 0 <= Z.log2 m * 30103 / 100000).
+  { apply Z.div_pos; [|lia]. pose proof (Z.log2_nonneg m). lia. }
+  set (g := Z.log2 m * 30103 / 100000) in *.
+  destruct ((10 ^ g <=? m) && (m <? 10 ^ (g + 1))) eqn:C1.
+  { apply andb_true_iff in C1 as [A B]. apply Z.leb_le in A. apply Z.ltb_lt in B.
+    replace (g + 1 - 1) with g by lia. lia. }
+  destruct ((1 <=? g) && (10 ^ (g - 1) <=? m) && (m <? 10 ^ g)) eqn:C2.
+  { apply andb_true_iff in C2 as [AB C]. apply andb_true_iff in AB as [A B].
+    apply Z.leb_le in A, B. apply Z.ltb_lt in C. lia. }
+  destruct ((10 ^ (g + 1) <=? m) && (m <? 10 ^ (g + 2))) eqn:C3.
+  { apply andb_true_iff in C3 as [A B]. apply Z.leb_le in A. apply Z.ltb_lt in B.
+    replace (g + 2 - 1) with (g + 1) by lia. lia. }
+  apply ndigits_slow_spec, Hm.
 Qed.
 
 Lemma ndigits_unique m d : 0 < m -> 1 <= d -> 10 ^ (d - 1) <= m < 10 ^ d -> ndigits m = d.
@@ -351,35 +369,60 @@ Qed.
 Definition word_tok (s : str) : bool :=
   match s with [] => false | _ => forallb (fun c => negb (is_ws c) && negb (c =? cCOMMA)) s end.
 
-Lemma words_tok_end t : word_tok t = true -> words (replace_char cCOMMA cSP t) = [t].
+Lemma words_unfold x t :
+  words (x :: t) =
+  if is_ws x then words t
+  else match t with
+       | [] => [[x]]
+       | y :: _ => if is_ws y then [x] :: words t
+                   else match words t with h :: r => (x :: h) :: r | [] => [[x]] end
+       end.
+Proof. reflexivity. Qed.
+
+Definition nonws (s : str) : bool := forallb (fun c => negb (is_ws c)) s.
+
+Lemma words_nonws_end x t : nonws (x :: t) = true -> words (x :: t) = [x :: t].
 Proof.
-  destruct t as [|x t]; [discriminate|]. cbn [word_tok]. revert x.
-  induction t as [|y t IH]; intros x H; cbn [forallb] in H.
-  - rewrite andb_true_r in H. apply andb_true_iff in H as [H1 H2].
-    apply negb_true_iff in H1, H2. cbn [replace_char map words]. rewrite H2, H1. reflexivity.
-  - apply andb_true_iff in H as [Hx Hr]. pose proof Hr as Hr'.
-    cbn [forallb] in Hr. apply andb_true_iff in Hr as [Hy _].
-    apply andb_true_iff in Hx as [Hx1 Hx2]. apply negb_true_iff in Hx1, Hx2.
-    apply andb_true_iff in Hy as [Hy1 Hy2]. apply negb_true_iff in Hy1, Hy2.
-    specialize (IH y Hr'). cbn [replace_char map] in *. cbn [words]. rewrite Hx2, Hx1, Hy2, Hy1.
-    cbn [words] in IH. rewrite Hy2, Hy1 in IH. rewrite Hy2, Hy1. cbn [words] in *. rewrite IH. reflexivity.
+  revert x; induction t as [|y t IH]; intros x H; unfold nonws in H; cbn [forallb] in H.
+  - rewrite andb_true_r in H. apply negb_true_iff in H. rewrite words_unfold, H. reflexivity.
+  - apply andb_true_iff in H as [Hx Hr]. apply negb_true_iff in Hx.
+    pose proof Hr as Hr'. cbn [forallb] in Hr'. apply andb_true_iff in Hr' as [Hy _]. apply negb_true_iff in Hy.
+    rewrite words_unfold, Hx, Hy, (IH y Hr). reflexivity.
 Qed.
 
-Lemma words_tok_sep t rest : word_tok t = true ->
-  words (replace_char cCOMMA cSP (t ++ sep ++ rest)) = t :: words (replace_char cCOMMA cSP rest).
+Lemma words_nonws_sep x t rest : nonws (x :: t) = true ->
+  words ((x :: t) ++ cSP :: rest) = (x :: t) :: words rest.
 Proof.
-  destruct t as [|x t]; [discriminate|]. cbn [word_tok]. revert x.
-  induction t as [|y t IH]; intros x H; cbn [forallb] in H.
-  - rewrite andb_true_r in H. apply andb_true_iff in H as [H1 H2].
-    apply negb_true_iff in H1, H2. unfold sep. cbn [app replace_char map words]. rewrite H2, H1.
-    cbn [Z.eqb cCOMMA Pos.eqb is_ws cSP orb]. reflexivity.
-  - apply andb_true_iff in H as [Hx Hr]. pose proof Hr as Hr'.
-    cbn [forallb] in Hr. apply andb_true_iff in Hr as [Hy _].
-    apply andb_true_iff in Hx as [Hx1 Hx2]. apply negb_true_iff in Hx1, Hx2.
-    apply andb_true_iff in Hy as [Hy1 Hy2]. apply negb_true_iff in Hy1, Hy2.
-    specialize (IH y Hr'). cbn [app replace_char map] in *. cbn [words]. rewrite Hx2, Hx1, Hy2, Hy1.
-    cbn [words] in IH. rewrite Hy2, Hy1 in IH. rewrite IH. reflexivity.
+  revert x; induction t as [|y t IH]; intros x H; unfold nonws in H; cbn [forallb] in H.
+  - rewrite andb_true_r in H. apply negb_true_iff in H. cbn [app].
+    rewrite words_unfold, H. change (is_ws cSP) with true. cbn iota.
+    rewrite (words_unfold cSP rest). reflexivity.
+  - apply andb_true_iff in H as [Hx Hr]. apply negb_true_iff in Hx.
+    pose proof Hr as Hr'. cbn [forallb] in Hr'. apply andb_true_iff in Hr' as [Hy _]. apply negb_true_iff in Hy.
+    change ((x :: y :: t) ++ cSP :: rest) with (x :: ((y :: t) ++ cSP :: rest)).
+    rewrite words_unfold, Hx. change ((y :: t) ++ cSP :: rest) with (y :: (t ++ cSP :: rest)).
+    cbn iota. rewrite Hy. change (y :: t ++ cSP :: rest) with ((y :: t) ++ cSP :: rest).
+    rewrite (IH y Hr). reflexivity.
 Qed.
+
+Lemma word_tok_nonws t : word_tok t = true -> exists x r, t = x :: r /\ nonws t = true /\ has_char cCOMMA t = false.
+Proof.
+  destruct t as [|x r]; [discriminate|]. cbn [word_tok]. intros H. exists x, r. split; [reflexivity|].
+  revert H. generalize (x :: r). intros l. induction l as [|c l IH]; cbn [forallb nonws has_char existsb]; intros H.
+  - split; reflexivity.
+  - apply andb_true_iff in H as [Hc Hl]. apply andb_true_iff in Hc as [C1 C2].
+    destruct (IH Hl) as [I1 I2]. unfold nonws in I1. rewrite C1, I1. apply negb_true_iff in C2.
+    rewrite Z.eqb_sym in C2. rewrite C2. split; [reflexivity|exact I2].
+Qed.
+
+Lemma replace_none a b s : has_char a s = false -> replace_char a b s = s.
+Proof.
+  induction s as [|x t IH]; cbn [replace_char map has_char existsb]; intros H; [reflexivity|].
+  apply orb_false_iff in H as [H1 H2]. rewrite Z.eqb_sym, H1. f_equal. apply IH, H2.
+Qed.
+
+Lemma replace_app a b s t : replace_char a b (s ++ t) = replace_char a b s ++ replace_char a b t.
+Proof. unfold replace_char. apply map_app. Qed.
 
 Lemma parse_names_words names :
   names <> [] -> forallb word_tok names = true ->
@@ -387,16 +430,16 @@ Lemma parse_names_words names :
 Proof.
   induction names as [|a t IH]; intros Hne H; [congruence|].
   cbn [forallb] in H. apply andb_true_iff in H as [Ha Ht].
+  destruct (word_tok_nonws _ Ha) as (x & r & -> & Hn & Hc).
   destruct t as [|b t'].
-  - cbn [join]. apply words_tok_end, Ha.
-  - change (join sep (a :: b :: t')) with (a ++ sep ++ join sep (b :: t')).
-    rewrite (words_tok_sep _ _ Ha). f_equal. apply IH; [discriminate|exact Ht].
-Qed.
-
-Lemma replace_none a b s : has_char a s = false -> replace_char a b s = s.
-Proof.
-  induction s as [|x t IH]; cbn [replace_char map has_char existsb]; intros H; [reflexivity|].
-  apply orb_false_iff in H as [H1 H2]. rewrite Z.eqb_sym, H1. f_equal. apply IH, H2.
+  - cbn [join]. rewrite (replace_none _ _ _ Hc). apply words_nonws_end, Hn.
+  - change (join sep ((x :: r) :: b :: t')) with ((x :: r) ++ sep ++ join sep (b :: t')).
+    rewrite !replace_app, (replace_none _ _ _ Hc).
+    change (replace_char cCOMMA cSP sep) with [cSP; cSP]. cbn [app].
+    change ((x :: r ++ cSP :: cSP :: replace_char cCOMMA cSP (join sep (b :: t'))))
+      with ((x :: r) ++ cSP :: (cSP :: replace_char cCOMMA cSP (join sep (b :: t')))).
+    rewrite (words_nonws_sep _ _ _ Hn). rewrite (words_unfold cSP). change (is_ws cSP) with true. cbn iota.
+    f_equal. apply IH; [discriminate|exact Ht].
 Qed.
 
 (* the names line gives back the names, in order, for every number of variables *)
@@ -421,5 +464,75 @@ Proof. unfold impl_detect; intros -> -> ->; reflexivity. Qed.
 Lemma detect_short ls :
   find is_level_line (firstn 99 ls) = None -> (length ls < 27)%nat -> impl_detect ls = R_l100.
 Proof.
-  unfold impl_detect; intros -> H. apply nth_error_None in H. rewrite H. reflexivity.
+  unfold impl_detect; intros -> H. assert (H' : nth_error ls 26 = None) by (apply nth_error_None; lia).
+  rewrite H'. reflexivity.
 Qed.
+
+(* ------------------------------------------------------------------ concrete files (witnesses, non-vacuity) *)
+Definition rt_ok (f : file) : bool :=
+  match impl_roundtrip f, spec_roundtrip f with
+  | Some r, Some sp => rvars_eqb (r_vars r) sp
+  | _, _ => false
+  end.
+Definition second_ok (f : file) : bool :=
+  match impl_roundtrip f, impl_second f with
+  | Some r1, Some r2 => rvars_eqb (r_vars r2) (r_vars r1)
+  | _, _ => false
+  end.
+Definition detect_ok (f : file) : bool :=
+  match impl_write f with
+  | Some (_, ls) => match impl_detect ls with R_ffi1001 => true | R_l100 => false end
+  | None => false
+  end.
+
+Definition base_attrs (extra : list (str * str)) : list (str * str) :=
+  [(s2z "SDATE", s2z "2020, 01, 02"); (s2z "WDATE", s2z "2021, 03, 04"); (s2z "INDEPENDENT_VARIABLE", s2z "t")] ++ extra.
+Definition tvar (units code : string) (n : nat) : var :=
+  Var (s2z "t") (Some (s2z units)) (Some (s2z code)) (D (-9999) 0) (map (fun i => Some (D (Z.of_nat i) 0)) (seq 0 n)).
+Definition avar (name units code : string) (fill : dec) (cells : list (option dec)) (n : nat) : var :=
+  Var (s2z name) (Some (s2z units)) (Some (s2z code)) fill (cells ++ repeat (Some (D 15 (-1))) (n - length cells)).
+
+(* a file inside the proved domain: 2 dependent variables, masked cells, wide magnitudes, an attribute
+   with a colon, 16 records (34 lines) *)
+Definition w_good : file :=
+  File (base_attrs [(s2z "REVISION", s2z "R0: first"); (s2z "PI_NAME", s2z "Doe, J.")])
+       [tvar "t" "-9999" 16;
+        avar "NO" "ppbv" "-9999" (D (-9999) 0) [Some (D 123456789 (-3)); None; Some (D (-3) (-20)); Some (D 4 30); Some (D 0 0)] 16;
+        avar "T_K" "K" "-8888.5" (D (-88885) (-1)) [None; Some (D 27315 (-2)); Some (D 99999995 (-4))] 16].
+(* same file, 3 records: 21 lines *)
+Definition w_short : file :=
+  File (base_attrs [])
+       [tvar "t" "-9999" 3; avar "NO" "ppbv" "-9999" (D (-9999) 0) [Some (D 1 0); None] 3].
+(* independent variable with its own unit and code *)
+Definition w_indep : file :=
+  File (base_attrs []) [tvar "s" "-7777" 16; avar "NO" "ppbv" "-9999" (D (-9999) 0) [Some (D 1 0); None] 16].
+(* attribute value containing a newline *)
+Definition w_newline : file :=
+  File (base_attrs [(s2z "OTHER_COMMENTS", s2z "one" ++ [cNL] ++ s2z "two")])
+       [tvar "t" "-9999" 16; avar "NO" "ppbv" "-9999" (D (-9999) 0) [Some (D 1 0); None] 16].
+(* eight-digit missing code *)
+Definition w_longcode : file :=
+  File (base_attrs [])
+       [tvar "t" "-99999999" 16; avar "NO" "ppbv" "-99999999" (D (-99999999) 0) [Some (D 1 0); None] 16].
+(* masked array whose fill value is not the missing_value attribute *)
+Definition w_fill : file :=
+  File (base_attrs [])
+       [tvar "t" "-9999" 16; avar "NO" "ppbv" "-9999" (D 1 20) [Some (D 1 0); None] 16].
+(* an unmasked value that prints like the code *)
+Definition w_collide : file :=
+  File (base_attrs [])
+       [tvar "t" "-9999" 16; avar "NO" "ppbv" "-9999" (D (-9999) 0) [Some (D (-99990000001) (-7)); None] 16].
+Definition w_lod : file :=
+  File (base_attrs [(s2z "LLOD_FLAG", s2z "-8888")])
+       [tvar "t" "-9999" 16; avar "NO" "ppbv" "-9999" (D (-9999) 0) [Some (D 1 0); None] 16].
+Definition w_slash : file :=
+  File (base_attrs [])
+       [tvar "t" "-9999" 16; avar "NO/NOy" "ppbv" "-9999" (D (-9999) 0) [Some (D 1 0); None] 16].
+Definition w_unit_comma : file :=
+  File (base_attrs [])
+       [tvar "t" "-9999" 16; avar "NO" "mol,m" "-9999" (D (-9999) 0) [Some (D 1 0); None] 16].
+(* independent variable called Level: l100 claims the file whatever its length *)
+Definition w_level : file :=
+  File [(s2z "SDATE", s2z "2020, 01, 02"); (s2z "WDATE", s2z "2021, 03, 04"); (s2z "INDEPENDENT_VARIABLE", s2z "Level")]
+       [Var (s2z "Level") (Some (s2z "Level")) (Some (s2z "-9999")) (D (-9999) 0) (map (fun i => Some (D (Z.of_nat i) 0)) (seq 0 16));
+        avar "NO" "ppbv" "-9999" (D (-9999) 0) [Some (D 1 0); None] 16].
